@@ -40,18 +40,14 @@ func add(rootGoitPath, path string, index *store.Index) error {
 	cleanedRelPath := strings.ReplaceAll(relPath, `\`, "/") // replace backslash with slash
 	byteRelPath := []byte(cleanedRelPath)
 
-	// update index
-	isUpdated, err := index.Update(rootGoitPath, object.Hash, byteRelPath)
-	if err != nil {
-		return fmt.Errorf("fail to update index: %w", err)
-	}
-	if !isUpdated {
-		return nil
-	}
-
-	// write object to file
+	// write object to file first: the index must never name a blob that is not stored
 	if err := object.Write(rootGoitPath); err != nil {
 		return fmt.Errorf("fail to write object: %w", err)
+	}
+
+	// update index
+	if _, err := index.Update(rootGoitPath, object.Hash, byteRelPath); err != nil {
+		return fmt.Errorf("fail to update index: %w", err)
 	}
 
 	return nil
